@@ -4,7 +4,7 @@
    Part 2  slots:   assign_env / define_env change exactly one variable slot
    Part 3  steps:   SSetIdx and push/pop/reverse calls = operand evaluation, then one store
    Part 4  copies:  a copied array is independent of its source, over whole histories *)
-From Coq Require Import ZArith List Bool Lia.
+From Coq Require Import ZArith List Bool Lia SpecFloat.
 Require Import NS.theories.F64 NS.theories.Lang NS.theories.ArrSpec.
 Import ListNotations.
 Open Scope Z_scope.
@@ -417,4 +417,560 @@ Proof.
     destruct (len_z items <=? i); [right; eexists; split; [reflexivity|auto]|].
     destruct (nth_value items (Z.to_nat i)) as [sub|]; [|right; eexists; split; [reflexivity|auto]].
     destruct (IH sub op) as [(v' & r & ->) | (e & -> & He)]; cbn [bind]; [left; eauto|right; eauto].
+Qed.
+
+(* ---------- element persistence below the mutated array ---------- *)
+Lemma nth_value_nth_error : forall vs i, nth_value vs i = nth_error vs i.
+Proof. induction vs as [|x vs IH]; intros [|i]; cbn [nth_value nth_error]; auto. Qed.
+
+Lemma nth_z_app_l : forall a b k, 0 <= k < len_z a -> nth_z (a ++ b) k = nth_z a k.
+Proof.
+  intros a b k [H0 H1]. rewrite !nth_z_nonneg by lia. rewrite !nth_value_nth_error.
+  apply nth_error_app1. unfold len_z in H1. lia.
+Qed.
+
+Lemma nth_z_app_last : forall a x, nth_z (a ++ [x]) (len_z a) = Some x.
+Proof.
+  intros a x. unfold len_z. rewrite nth_z_nonneg by lia. rewrite nth_value_nth_error.
+  rewrite Nat2Z.id. rewrite nth_error_app2 by lia. now rewrite Nat.sub_diag.
+Qed.
+
+Lemma nth_z_rev : forall a k, 0 <= k < len_z a -> nth_z (rev a) k = nth_z a (len_z a - 1 - k).
+Proof.
+  intros a k [H0 H1]. unfold len_z in *. rewrite !nth_z_nonneg by lia.
+  rewrite !nth_value_nth_error.
+  assert (Hk : (Z.to_nat k < length a)%nat) by lia.
+  rewrite (nth_error_nth' (rev a) VNull) by (rewrite rev_length; exact Hk).
+  rewrite (nth_error_nth' a VNull) by lia.
+  rewrite rev_nth by exact Hk. f_equal. f_equal. lia.
+Qed.
+
+Lemma get_path_below : forall v p items k rest,
+  get_path v p = Some (VArr items) ->
+  get_path v (p ++ k :: rest) =
+  match nth_z items k with Some x => get_path x rest | None => None end.
+Proof. intros v p items k rest Hg. rewrite get_path_app, Hg. reflexivity. Qed.
+
+(* push appends exactly one element at the end of the addressed array; every element
+   that was there keeps its position and its value *)
+Lemma mutate_push_elements : forall p v x v' r,
+  nonneg p -> mutate_path v p (MPush x) = Ok (v', r) ->
+  exists items, get_path v p = Some (VArr items) /\ r = VNull /\
+    get_path v' p = Some (VArr (items ++ [x])) /\
+    get_path v' (p ++ [len_z items]) = Some x /\
+    forall k rest, 0 <= k < len_z items ->
+      get_path v' (p ++ k :: rest) = get_path v (p ++ k :: rest).
+Proof.
+  intros p v x v' r Hnn H.
+  destruct (mutate_path_target _ _ _ _ _ Hnn H) as (items & Hg & Hg' & Hr).
+  rewrite apply_push in Hg', Hr. cbn [fst snd] in Hg', Hr.
+  exists items. refine (conj Hg (conj Hr (conj Hg' (conj _ _)))).
+  - rewrite (get_path_below _ _ _ _ _ Hg'). now rewrite nth_z_app_last.
+  - intros k rest Hk. rewrite (get_path_below _ _ _ _ _ Hg'), (get_path_below _ _ _ _ _ Hg).
+    now rewrite nth_z_app_l.
+Qed.
+
+(* pop removes exactly the last element and returns it (null on an empty array) *)
+Lemma mutate_pop_elements : forall p v v' r,
+  nonneg p -> mutate_path v p MPop = Ok (v', r) ->
+  exists items, get_path v p = Some (VArr items) /\
+    ((items = [] /\ r = VNull /\ get_path v' p = Some (VArr [])) \/
+     (exists l, items = l ++ [r] /\ get_path v' p = Some (VArr l) /\
+        forall k rest, 0 <= k < len_z l ->
+          get_path v' (p ++ k :: rest) = get_path v (p ++ k :: rest))).
+Proof.
+  intros p v v' r Hnn H.
+  destruct (mutate_path_target _ _ _ _ _ Hnn H) as (items & Hg & Hg' & Hr).
+  exists items. split; [exact Hg|].
+  destruct items as [|a items0].
+  - left. rewrite apply_pop_empty in Hg', Hr. auto.
+  - right. destruct (exists_last (l := a :: items0)) as (l & x & Hl); [discriminate|].
+    rewrite Hl in Hg, Hg', Hr. rewrite apply_pop_snoc in Hg', Hr. cbn [fst snd] in Hg', Hr.
+    subst x. exists l. refine (conj Hl (conj Hg' _)).
+    intros k rest Hk. rewrite (get_path_below _ _ _ _ _ Hg'), (get_path_below _ _ _ _ _ Hg).
+    now rewrite nth_z_app_l.
+Qed.
+
+(* reverse: the element at position k afterwards is the one that was at len-1-k *)
+Lemma mutate_reverse_elements : forall p v v' r,
+  nonneg p -> mutate_path v p MReverse = Ok (v', r) ->
+  exists items, get_path v p = Some (VArr items) /\ r = VNull /\
+    get_path v' p = Some (VArr (rev items)) /\
+    forall k rest, 0 <= k < len_z items ->
+      get_path v' (p ++ k :: rest) = get_path v (p ++ (len_z items - 1 - k) :: rest).
+Proof.
+  intros p v v' r Hnn H.
+  destruct (mutate_path_target _ _ _ _ _ Hnn H) as (items & Hg & Hg' & Hr).
+  rewrite apply_reverse in Hg', Hr. cbn [fst snd] in Hg', Hr.
+  exists items. refine (conj Hg (conj Hr (conj Hg' _))).
+  intros k rest Hk. rewrite (get_path_below _ _ _ _ _ Hg'), (get_path_below _ _ _ _ _ Hg).
+  now rewrite nth_z_rev.
+Qed.
+
+(* ================================================================== *)
+(* Part 2: variable slots                                              *)
+(* ================================================================== *)
+
+Lemma find_idx_some : forall l n sc j,
+  find_idx l n sc = Some j ->
+  exists s, nth_error sc j = Some s /\ slot_matches l n s = true /\
+            find_slot l n sc = Some (s_val s).
+Proof.
+  induction sc as [|s sc IH]; intros j H; cbn [find_idx] in H; [discriminate|].
+  cbn [find_slot]. destruct (slot_matches l n s) eqn:Hm.
+  - inversion H; subst j. exists s. cbn [nth_error]. auto.
+  - destruct (find_idx l n sc) as [j'|] eqn:Hf; [|discriminate]. inversion H; subst j.
+    destruct (IH j' eq_refl) as (s' & Hn & Hm' & Hfs). exists s'. cbn [nth_error]. auto.
+Qed.
+
+Lemma find_idx_none : forall l n sc, find_idx l n sc = None -> find_slot l n sc = None.
+Proof.
+  induction sc as [|s sc IH]; intros H; cbn [find_idx find_slot] in *; [reflexivity|].
+  destruct (slot_matches l n s); [discriminate|].
+  destruct (find_idx l n sc); [discriminate|]. now apply IH.
+Qed.
+
+(* a variable reference reads the slot it resolves to *)
+Lemma lookup_env_pos : forall l n e,
+  lookup_env l n e =
+  match find_pos l n e with
+  | Some pos => option_map s_val (slot_at e pos)
+  | None => None
+  end.
+Proof.
+  induction e as [|sc e IH]; cbn [lookup_env find_pos]; [reflexivity|].
+  destruct (find_idx l n sc) as [j|] eqn:Hf.
+  - destruct (find_idx_some _ _ _ _ Hf) as (s & Hn & _ & Hfs). rewrite Hfs.
+    unfold slot_at. cbn [fst snd nth_error]. now rewrite Hn.
+  - rewrite (find_idx_none _ _ _ Hf), IH.
+    destruct (find_pos l n e) as [[i j]|]; reflexivity.
+Qed.
+
+Lemma slot_matches_skey : forall l n s s',
+  s_id s = s_id s' -> s_name s = s_name s' -> slot_matches l n s = slot_matches l n s'.
+Proof. intros l n s s' H1 H2. unfold slot_matches. now rewrite H1, H2. Qed.
+
+Lemma find_idx_shape : forall l n sc sc',
+  map skey sc = map skey sc' -> find_idx l n sc = find_idx l n sc'.
+Proof.
+  induction sc as [|s sc IH]; intros [|s' sc'] H; cbn [map] in H; try discriminate; [reflexivity|].
+  injection H as Hk Hn Hr. cbn [find_idx]. rewrite (slot_matches_skey l n s s' Hk Hn).
+  now rewrite (IH sc' Hr).
+Qed.
+
+(* which slot a reference resolves to depends only on the shape of the environment *)
+Lemma find_pos_shape : forall l n e e', shape e = shape e' -> find_pos l n e = find_pos l n e'.
+Proof.
+  unfold shape. induction e as [|sc e IH]; intros [|sc' e'] H; cbn [map] in H; try discriminate;
+    [reflexivity|].
+  injection H as Hk Hr. cbn [find_pos]. rewrite (find_idx_shape l n sc sc' Hk).
+  now rewrite (IH e' Hr).
+Qed.
+
+Lemma set_slot_spec : forall l n v sc,
+  match find_idx l n sc with
+  | Some j => exists s sc', nth_error sc j = Some s /\ set_slot l n v sc = Some sc' /\
+                nth_error sc' j = Some (with_val s v) /\
+                (forall k, k <> j -> nth_error sc' k = nth_error sc k) /\
+                map skey sc' = map skey sc
+  | None => set_slot l n v sc = None
+  end.
+Proof.
+  induction sc as [|s sc IH]; cbn [find_idx set_slot]; [reflexivity|].
+  destruct (slot_matches l n s) eqn:Hm.
+  - exists s. eexists. refine (conj eq_refl (conj eq_refl (conj eq_refl (conj _ eq_refl)))).
+    intros [|k] Hk; [congruence|reflexivity].
+  - destruct (find_idx l n sc) as [j|] eqn:Hf.
+    + destruct IH as (s0 & sc' & Hn & Hs & Hn' & Hoth & Hshape). rewrite Hs.
+      exists s0, (s :: sc'). cbn [nth_error map]. refine (conj Hn (conj eq_refl (conj Hn' (conj _ _)))).
+      * intros [|k] Hk; [reflexivity|]. cbn [nth_error]. apply Hoth. congruence.
+      * now rewrite Hshape.
+    + now rewrite IH.
+Qed.
+
+Lemma assign_env_spec : forall l n v e,
+  match find_pos l n e with
+  | Some pos => exists s e', slot_at e pos = Some s /\ assign_env l n v e = Some e' /\
+                  slot_at e' pos = Some (with_val s v) /\
+                  (forall pos', pos' <> pos -> slot_at e' pos' = slot_at e pos') /\
+                  shape e' = shape e
+  | None => assign_env l n v e = None
+  end.
+Proof.
+  induction e as [|sc e IH]; cbn [find_pos assign_env]; [reflexivity|].
+  pose proof (set_slot_spec l n v sc) as Hss.
+  destruct (find_idx l n sc) as [j|] eqn:Hf.
+  - destruct Hss as (s & sc' & Hn & Hs & Hn' & Hoth & Hshape). rewrite Hs.
+    exists s, (sc' :: e). unfold slot_at, shape. cbn [fst snd nth_error map].
+    refine (conj Hn (conj eq_refl (conj Hn' (conj _ _)))).
+    + intros [[|i] k] Hne; cbn [fst snd nth_error]; [|reflexivity].
+      apply Hoth. congruence.
+    + now rewrite Hshape.
+  - rewrite Hss. destruct (find_pos l n e) as [[i j]|] eqn:Hp.
+    + destruct IH as (s & e' & Hsa & Ha & Hsa' & Hoth & Hshape). rewrite Ha.
+      exists s, (sc :: e'). unfold slot_at, shape in *. cbn [fst snd nth_error map] in *.
+      refine (conj Hsa (conj eq_refl (conj Hsa' (conj _ _)))).
+      * intros [[|i'] k] Hne; cbn [fst snd nth_error]; [reflexivity|].
+        apply (Hoth (i', k)). congruence.
+      * now rewrite Hshape.
+    + now rewrite IH.
+Qed.
+
+(* assign_env: exactly the first matching slot (innermost scope first) gets the value;
+   no other slot changes; scope count and slot ids/names/order are kept *)
+Lemma assign_env_frame : forall l n v e e',
+  assign_env l n v e = Some e' ->
+  exists pos s, find_pos l n e = Some pos /\ slot_at e pos = Some s /\
+    slot_at e' pos = Some (with_val s v) /\
+    (forall pos', pos' <> pos -> slot_at e' pos' = slot_at e pos') /\
+    shape e' = shape e.
+Proof.
+  intros l n v e e' H. pose proof (assign_env_spec l n v e) as Hs.
+  destruct (find_pos l n e) as [pos|]; [|congruence].
+  destruct Hs as (s & e'' & Hsa & Ha & Hsa' & Hoth & Hshape).
+  rewrite H in Ha. inversion Ha; subst e''. exists pos, s. auto.
+Qed.
+
+Lemma assign_env_defined : forall l n v e,
+  assign_env l n v e = None <-> lookup_env l n e = None.
+Proof.
+  intros l n v e. pose proof (assign_env_spec l n v e) as Hs. rewrite lookup_env_pos.
+  destruct (find_pos l n e) as [pos|].
+  - destruct Hs as (s & e' & Hsa & Ha & _). rewrite Ha, Hsa. cbn [option_map]. split; discriminate.
+  - tauto.
+Qed.
+
+(* the same, through variable references: the assigned variable reads the new value and
+   every reference that resolves to another slot reads what it read before *)
+Lemma assign_env_lookup : forall l n v e e',
+  assign_env l n v e = Some e' ->
+  lookup_env l n e' = Some v /\
+  (forall l' n', find_pos l' n' e' = find_pos l' n' e) /\
+  (forall l' n', find_pos l' n' e <> find_pos l n e -> lookup_env l' n' e' = lookup_env l' n' e) /\
+  (forall l' n', find_pos l' n' e = find_pos l n e -> lookup_env l' n' e' = Some v).
+Proof.
+  intros l n v e e' H.
+  destruct (assign_env_frame _ _ _ _ _ H) as (pos & s & Hp & Hsa & Hsa' & Hoth & Hshape).
+  assert (Hfp : forall l' n', find_pos l' n' e' = find_pos l' n' e)
+    by (intros; now apply find_pos_shape).
+  assert (Hsame : forall l' n', find_pos l' n' e = find_pos l n e -> lookup_env l' n' e' = Some v).
+  { intros l' n' He. rewrite lookup_env_pos, Hfp, He, Hp, Hsa'. reflexivity. }
+  refine (conj (Hsame l n eq_refl) (conj Hfp (conj _ Hsame))).
+  intros l' n' Hne. rewrite !lookup_env_pos, Hfp.
+  destruct (find_pos l' n' e) as [pos'|]; [|reflexivity].
+  rewrite Hoth; [reflexivity|]. intros ->. apply Hne. now rewrite Hp.
+Qed.
+
+(* `make`: overwrite in the innermost scope, or push exactly one new slot there *)
+Lemma bytes_eqb_refl : forall a, bytes_eqb a a = true.
+Proof. induction a as [|x a IH]; cbn [bytes_eqb]; [reflexivity|]. now rewrite Z.eqb_refl, IH. Qed.
+
+Lemma slot_matches_new : forall l n v, slot_matches l n {| s_id := l; s_name := n; s_val := v |} = true.
+Proof.
+  intros [i|] n v; unfold slot_matches; cbn [s_id s_name opt_eqb].
+  - apply Z.eqb_refl.
+  - apply bytes_eqb_refl.
+Qed.
+
+Lemma define_env_cases : forall l n v sc r,
+  (exists j, find_idx l n sc = Some j /\
+             assign_env l n v (sc :: r) = Some (define_env l n v (sc :: r))) \/
+  (find_idx l n sc = None /\
+   define_env l n v (sc :: r) = ({| s_id := l; s_name := n; s_val := v |} :: sc) :: r).
+Proof.
+  intros l n v sc r. cbn [define_env assign_env].
+  pose proof (set_slot_spec l n v sc) as Hs.
+  destruct (find_idx l n sc) as [j|].
+  - left. destruct Hs as (s & sc' & _ & Hset & _). rewrite Hset. eauto.
+  - right. now rewrite Hs.
+Qed.
+
+Lemma define_env_frame : forall l n v sc r,
+  let e := sc :: r in
+  let e' := define_env l n v e in
+  lookup_env l n e' = Some v /\
+  (shape e' = shape e \/ shape e' = ((l, n) :: map skey sc) :: shape r) /\
+  (forall l' n', find_pos l' n' e' <> find_pos l n e' -> lookup_env l' n' e' = lookup_env l' n' e).
+Proof.
+  intros l n v sc r e e'. subst e e'.
+  destruct (define_env_cases l n v sc r) as [(j & Hf & Ha) | (Hf & Hd)].
+  - destruct (assign_env_lookup _ _ _ _ _ Ha) as (Hl & Hfp & Hoth & _).
+    destruct (assign_env_frame _ _ _ _ _ Ha) as (_ & _ & _ & _ & _ & _ & Hshape).
+    refine (conj Hl (conj (or_introl Hshape) _)).
+    intros l' n' Hne. apply Hoth. now rewrite <- !Hfp.
+  - rewrite Hd. refine (conj _ (conj (or_intror eq_refl) _)).
+    + cbn [lookup_env find_slot]. now rewrite slot_matches_new.
+    + intros l' n'. cbn [find_pos find_idx lookup_env find_slot]. rewrite slot_matches_new.
+      destruct (slot_matches l' n' _) eqn:Hm; [intros Hc; now contradiction Hc|].
+      intros _. reflexivity.
+Qed.
+
+(* ================================================================== *)
+(* Part 3: the mutating constructs of run_impl                         *)
+(* ================================================================== *)
+
+Lemma bytes_eqb_eq : forall a b, bytes_eqb a b = true -> a = b.
+Proof.
+  induction a as [|x a IH]; intros [|y b] H; cbn [bytes_eqb] in H; try discriminate; [reflexivity|].
+  apply andb_true_iff in H. destruct H as [Hx Hr]. apply Z.eqb_eq in Hx. subst y.
+  now rewrite (IH b Hr).
+Qed.
+
+Lemma mut_method_cases : forall f,
+  mem_name f array_mut_methods = true -> f = n_push \/ f = n_pop \/ f = n_reverse.
+Proof.
+  intros f H. unfold mem_name, array_mut_methods in H. cbn [existsb] in H.
+  repeat (apply orb_true_iff in H; destruct H as [H|H]); try discriminate H;
+    apply bytes_eqb_eq in H; auto.
+Qed.
+
+Lemma to_usize_nonneg : forall x, 0 <= to_usize x.
+Proof.
+  intros x. unfold to_usize, clamp, usize_max.
+  destruct x as [b| b| |b m e]; try lia.
+  - destruct (trunc_Z (S754_zero b)); lia.
+  - destruct b; lia.
+  - destruct (trunc_Z (S754_finite b m e)); lia.
+Qed.
+
+Lemma index_value_nonneg : forall v i, index_value v = Ok i -> 0 <= i.
+Proof.
+  intros v i H. unfold index_value in H. destruct v; try discriminate H.
+  destruct (negb (is_finite x) || negb (is_int x)); [discriminate H|].
+  destruct (flt x (fzero false)); [discriminate H|].
+  inversion H. apply to_usize_nonneg.
+Qed.
+
+Section Steps.
+Variable P : plan.
+Variable eps : f64.
+
+Lemma bindM_ok_inv : forall A B (m : M A) (f : A -> M B) o b,
+  bindM m f = (o, Ok b) ->
+  exists o1 a o2, m = (o1, Ok a) /\ f a = (o2, Ok b) /\ o = o1 ++ o2.
+Proof.
+  intros A B [o1 [a|e|p| |]] f o b H; cbn [bindM] in H; try discriminate H.
+  destruct (f a) as [o2 r] eqn:Hf. inversion H; subst. exists o1, a, o2. auto.
+Qed.
+
+Ltac bind_inv H :=
+  let o1 := fresh "o" in let a := fresh "a" in let o2 := fresh "o" in
+  let Hm := fresh "Hm" in let Ho := fresh "Ho" in
+  apply bindM_ok_inv in H; destruct H as (o1 & a & o2 & Hm & H & Ho).
+
+(* ---------- the construct equations (all by computation) ---------- *)
+Lemma exec_setidx_S : forall n sid t e s,
+  exec P eps (S n) (SSetIdx sid t e) s =
+  bindM (eval P eps n e s) (fun '(v, s1) =>
+    match flatten_target t [] with
+    | None => ErrM TypeMis
+    | Some (vn, vl, idx) =>
+        bindM (eval_indices P eps n idx s1) (fun '(path, s2) => store_idx vn vl path v s2)
+    end).
+Proof. reflexivity. Qed.
+
+Lemma eval_push_S : forall n o a0 rest t s,
+  eval P eps (S n) (ECall (EMember o n_push) (a0 :: rest) t) s =
+  bindM (eval P eps n a0 s) (fun '(v, s1) => mutate_recv P eps n o (MPush v) s1).
+Proof. intros. destruct o; reflexivity. Qed.
+
+Lemma eval_push_noarg_S : forall n o t s,
+  eval P eps (S n) (ECall (EMember o n_push) [] t) s = PanicM PArgIndex.
+Proof. reflexivity. Qed.
+
+Lemma eval_pop_S : forall n o args t s,
+  eval P eps (S n) (ECall (EMember o n_pop) args t) s = mutate_recv P eps n o MPop s.
+Proof. intros. destruct o; reflexivity. Qed.
+
+Lemma eval_reverse_S : forall n o args t s,
+  eval P eps (S n) (ECall (EMember o n_reverse) args t) s = mutate_recv P eps n o MReverse s.
+Proof. intros. destruct o; reflexivity. Qed.
+
+Lemma exec_make_S : forall n sid vn vl e s,
+  exec P eps (S n) (SMake sid vn vl e) s =
+  bindM (eval P eps n e s) (fun '(v, s1) =>
+    OkM (FNormal, with_env (define_env vl vn v (env s1)) s1)).
+Proof. reflexivity. Qed.
+
+Lemma exec_expr_S : forall n sid e s,
+  exec P eps (S n) (SExpr sid e) s =
+  bindM (eval P eps n e s) (fun '(_, s1) => OkM (FNormal, s1)).
+Proof. reflexivity. Qed.
+
+Lemma eval_var_S : forall n vn vl s,
+  eval P eps (S n) (EVar vn vl) s =
+  match lookup_env vl vn (env s) with
+  | Some v => OkM (v, s)
+  | None => PanicM PVarMissing
+  end.
+Proof. reflexivity. Qed.
+
+Lemma eval_arr_S : forall n es s,
+  eval P eps (S n) (EArr es) s =
+  bindM (evals P eps n es s) (fun '(vs, s1) => OkM (VArr vs, s1)).
+Proof. reflexivity. Qed.
+
+(* the call of a user function: arguments are evaluated to values, each parameter gets a
+   fresh slot holding its argument value in a new innermost scope, the body runs, the
+   scope is dropped *)
+Lemma eval_call_S : forall n fname l args target s,
+  global_builtin fname = None ->
+  eval P eps (S n) (ECall (EVar fname l) args target) s =
+  match lookup_fn target fname (fns s) with
+  | None => PanicM PFuncMissing
+  | Some fd =>
+      bindM (evals P eps n args s) (fun '(vs, s1) =>
+        if negb (Nat.eqb (length vs) (length (f_params fd))) then PanicM PArgCount
+        else if (match f_id fd with
+                 | Some _ => f_llen fd <? Z.of_nat (length (f_params fd))
+                 | None => false end) then PanicM PParamRange
+        else
+          bindM (exec_block P eps n (f_body fd)
+                   (push_scope (param_slots fd (f_params fd) vs 0 []) s1))
+                (fun '(fl, s3) =>
+                   match fl with
+                   | FNormal => OkM (VNull, pop_scope s3)
+                   | FReturn v => OkM (v, pop_scope s3)
+                   | FBreak | FNext => PanicM PBreakEscapes
+                   end))
+  end.
+Proof. intros n fname l args target s Hg. cbn [eval]. rewrite Hg. reflexivity. Qed.
+
+(* ---------- index evaluation ---------- *)
+Lemma eval_indices_nonneg : forall n idx s o path s',
+  eval_indices P eps n idx s = (o, Ok (path, s')) -> nonneg path.
+Proof.
+  induction idx as [|e idx IH]; intros s o path s' H; cbn [eval_indices] in H.
+  - inversion H. constructor.
+  - bind_inv H. destruct a as [iv s1]. bind_inv H. bind_inv H. destruct a0 as [is s2].
+    inversion H; subst. apply nonneg_cons. split.
+    + unfold lift in Hm0. inversion Hm0 as [[Ho' Hi]]. eapply index_value_nonneg; eauto.
+    + eapply IH; eauto.
+Qed.
+
+(* ---------- the store phase ---------- *)
+Lemma store_idx_ok_inv : forall vn vl path v s o fl s',
+  store_idx vn vl path v s = (o, Ok (fl, s')) ->
+  o = [] /\ fl = FNormal /\
+  exists root root', stored vn vl s s' root root' /\ assign_path root path v = Ok root'.
+Proof.
+  intros vn vl path v s o fl s' H. unfold store_idx in H.
+  destruct (lookup_env vl vn (env s)) as [root|] eqn:Hl; [|discriminate H].
+  bind_inv H. unfold lift in Hm. inversion Hm as [[Ho' Ha]]. subst o0.
+  destruct (assign_env vl vn a (env s)) as [e'|] eqn:Hae; [|discriminate H].
+  inversion H; subst. refine (conj eq_refl (conj eq_refl _)).
+  exists root, a. unfold stored. cbn [with_env env fns]. auto.
+Qed.
+
+Lemma store_mut_ok_inv : forall vn vl path op s o r s',
+  store_mut vn vl path op s = (o, Ok (r, s')) ->
+  o = [] /\
+  exists root root', stored vn vl s s' root root' /\ mutate_path root path op = Ok (root', r).
+Proof.
+  intros vn vl path op s o r s' H. unfold store_mut in H.
+  destruct (lookup_env vl vn (env s)) as [root|] eqn:Hl; [|discriminate H].
+  bind_inv H. destruct a as [root' r']. unfold lift in Hm. inversion Hm as [[Ho' Ha]]. subst o0.
+  destruct (assign_env vl vn root' (env s)) as [e'|] eqn:Hae; [|discriminate H].
+  inversion H; subst. refine (conj eq_refl _).
+  exists root, root'. unfold stored. cbn [with_env env fns]. auto.
+Qed.
+
+(* what a store does to the environment: one slot, nothing else *)
+Lemma store_frame : forall vn vl s s' root root',
+  stored vn vl s s' root root' ->
+  lookup_env vl vn (env s') = Some root' /\
+  shape (env s') = shape (env s) /\
+  fns s' = fns s /\
+  (forall l' n', find_pos l' n' (env s') = find_pos l' n' (env s)) /\
+  (forall l' n', find_pos l' n' (env s) <> find_pos vl vn (env s) ->
+                 lookup_env l' n' (env s') = lookup_env l' n' (env s)) /\
+  (forall pos', find_pos vl vn (env s) <> Some pos' ->
+                slot_at (env s') pos' = slot_at (env s) pos').
+Proof.
+  intros vn vl s s' root root' (Hl & Ha & Hf).
+  destruct (assign_env_lookup _ _ _ _ _ Ha) as (Hnew & Hfp & Hoth & _).
+  destruct (assign_env_frame _ _ _ _ _ Ha) as (pos & sl & Hp & _ & _ & Hslots & Hshape).
+  refine (conj Hnew (conj Hshape (conj Hf (conj Hfp (conj Hoth _))))).
+  intros pos' Hne. apply Hslots. intros ->. now apply Hne.
+Qed.
+
+(* ---------- SSetIdx, general: operand evaluation, then one store ---------- *)
+Lemma exec_setidx_store : forall n sid t e s out fl s',
+  exec P eps (S n) (SSetIdx sid t e) s = (out, Ok (fl, s')) ->
+  exists v s1 o1 vn vl idx path s2 o2 root root',
+    eval P eps n e s = (o1, Ok (v, s1)) /\
+    flatten_target t [] = Some (vn, vl, idx) /\
+    eval_indices P eps n idx s1 = (o2, Ok (path, s2)) /\
+    nonneg path /\ out = o1 ++ o2 /\ fl = FNormal /\
+    stored vn vl s2 s' root root' /\ assign_path root path v = Ok root'.
+Proof.
+  intros n sid t e s out fl s' H. rewrite exec_setidx_S in H.
+  bind_inv H. destruct a as [v s1].
+  destruct (flatten_target t []) as [[[vn vl] idx]|] eqn:Hft; [|discriminate H].
+  bind_inv H. destruct a as [path s2].
+  apply store_idx_ok_inv in H. destruct H as (-> & -> & root & root' & Hst & Hap).
+  exists v, s1, o, vn, vl, idx, path, s2, o1, root, root'.
+  rewrite app_nil_r in Ho0. subst o0.
+  refine (conj Hm (conj eq_refl (conj Hm0 (conj _ (conj Ho (conj eq_refl (conj Hst Hap))))))).
+  eapply eval_indices_nonneg; eauto.
+Qed.
+
+(* ---------- push / pop / reverse, general ---------- *)
+Lemma flatten_target_var : forall vn vl acc, flatten_target (EVar vn vl) acc = Some (vn, vl, acc).
+Proof. reflexivity. Qed.
+
+Lemma mutate_recv_ok_inv : forall n o op s out r s',
+  mutate_recv P eps n o op s = (out, Ok (r, s')) ->
+  exists vn vl idx path s2 root root',
+    flatten_target o [] = Some (vn, vl, idx) /\
+    eval_indices P eps n idx s = (out, Ok (path, s2)) /\ nonneg path /\
+    stored vn vl s2 s' root root' /\ mutate_path root path op = Ok (root', r).
+Proof.
+  intros n o op s out r s' H. destruct o; try discriminate H.
+  - (* EVar *) cbn [mutate_recv] in H. apply store_mut_ok_inv in H.
+    destruct H as (-> & root & root' & Hst & Hmp).
+    exists n0, l, [], [], s, root, root'. cbn [eval_indices].
+    refine (conj eq_refl (conj eq_refl (conj _ (conj Hst Hmp)))). constructor.
+  - (* EIdx *) cbn [mutate_recv] in H.
+    destruct (flatten_target (EIdx o1 o2) []) as [[[vn vl] idx]|] eqn:Hft; [|discriminate H].
+    bind_inv H. destruct a as [path s2]. apply store_mut_ok_inv in H.
+    destruct H as (-> & root & root' & Hst & Hmp). rewrite app_nil_r in Ho. subst out.
+    exists vn, vl, idx, path, s2, root, root'.
+    refine (conj eq_refl (conj Hm (conj _ (conj Hst Hmp)))).
+    eapply eval_indices_nonneg; eauto.
+Qed.
+
+(* a call of push / pop / reverse that returns: the argument (push only) is evaluated, then
+   the index expressions of the receiver, then exactly one store happens *)
+Lemma mutating_call_store : forall n o f args t s out r s',
+  mem_name f array_mut_methods = true ->
+  eval P eps (S n) (ECall (EMember o f) args t) s = (out, Ok (r, s')) ->
+  exists op s1 o1 vn vl idx path s2 o2 root root',
+    ((f = n_push /\ exists a0 rest v, args = a0 :: rest /\ op = MPush v /\
+                     eval P eps n a0 s = (o1, Ok (v, s1))) \/
+     (f = n_pop /\ op = MPop /\ s1 = s /\ o1 = []) \/
+     (f = n_reverse /\ op = MReverse /\ s1 = s /\ o1 = [])) /\
+    flatten_target o [] = Some (vn, vl, idx) /\
+    eval_indices P eps n idx s1 = (o2, Ok (path, s2)) /\ nonneg path /\ out = o1 ++ o2 /\
+    stored vn vl s2 s' root root' /\ mutate_path root path op = Ok (root', r).
+Proof.
+  intros n o f args t s out r s' Hf H.
+  destruct (mut_method_cases f Hf) as [-> | [-> | ->]].
+  - destruct args as [|a0 rest]; [rewrite eval_push_noarg_S in H; discriminate H|].
+    rewrite eval_push_S in H. bind_inv H. destruct a as [v s1].
+    apply mutate_recv_ok_inv in H.
+    destruct H as (vn & vl & idx & path & s2 & root & root' & Hft & Hei & Hnn & Hst & Hmp).
+    exists (MPush v), s1, o0, vn, vl, idx, path, s2, o1, root, root'.
+    refine (conj _ (conj Hft (conj Hei (conj Hnn (conj Ho (conj Hst Hmp)))))).
+    left. split; [reflexivity|]. exists a0, rest, v. auto.
+  - rewrite eval_pop_S in H. apply mutate_recv_ok_inv in H.
+    destruct H as (vn & vl & idx & path & s2 & root & root' & Hft & Hei & Hnn & Hst & Hmp).
+    exists MPop, s, [], vn, vl, idx, path, s2, out, root, root'.
+    refine (conj _ (conj Hft (conj Hei (conj Hnn (conj eq_refl (conj Hst Hmp)))))).
+    right. left. auto.
+  - rewrite eval_reverse_S in H. apply mutate_recv_ok_inv in H.
+    destruct H as (vn & vl & idx & path & s2 & root & root' & Hft & Hei & Hnn & Hst & Hmp).
+    exists MReverse, s, [], vn, vl, idx, path, s2, out, root, root'.
+    refine (conj _ (conj Hft (conj Hei (conj Hnn (conj eq_refl (conj Hst Hmp)))))).
+    right. right. auto.
 Qed.
